@@ -1,5 +1,7 @@
 """C19 — gama-g3 reproduces consistent global networks, independent of algorithm."""
 import importlib.util
+import math
+import sys
 import tempfile
 
 from lib.core import *
@@ -8,7 +10,11 @@ ID = "C19"
 PROPS_FILES = ["Gama/Props/C19.lean"]
 LEAN_TARGETS = ["Gama.Props.C19"]
 DRIVERS = ["drv_g3"]
-RULE = ("generated ECEF networks (tools/gen/c19_g3net.py): 3-7 points around a centre drawn from {generic, near either "
+RULE = ("stream lin: single Model::linearization(T*) calls on 1-3 points anywhere on the ellipsoid (poles, equator, "
+        "antimeridian), sights up to 57 deg off the horizontal, every n/e/u state combination incl. fixed n,e + free u "
+        "and N != E states, stale `ind` members, corrections, instrument heights, deflections; stream parse: 2-8 records "
+        "with/without -dh children in random order, repeated and foreign children; "
+        "generated ECEF networks (tools/gen/c19_g3net.py): 3-7 points around a centre drawn from {generic, near either "
         "pole (1e-4..0.3 deg), a point exactly on the rotation axis, antimeridian (+-1e-6..1e-2 deg), equator, "
         "Greenwich}; n/e and u components fixed/free/constrained; vectors (single and multi-vector clusters, "
         "diagonal/banded/full covariances), xyz, distances, heights, height differences, angles; approximate "
@@ -20,11 +26,17 @@ TRUSTED = [
     "tools/gen/c19_g3net.py: independent WGS84 conversions, frames, Jacobian and rank used as the oracle's reference",
 ]
 MODELLED = [
-    "the g3 XML parser (dataparser_g3.cpp), Model::update_init, the result writer "
-    "(g3_model_write_xml_adjustment_results.cpp, Point::write_xml) and g3_adjres.cpp are exercised end-to-end only",
+    "the SAX state table of the g3 XML parser (dataparser_g3.cpp) apart from its pending -dh attributes, "
+    "Model::update_init, the result writer (g3_model_write_xml_adjustment_results.cpp, Point::write_xml) and "
+    "g3_adjres.cpp are exercised end-to-end only",
     "the solvers behind class Adj are C01-C04's theorems; here Adj is only run (4 algorithms) on the dumped equations",
-    "Angle / ZenithAngle / Azimuth coefficients are not modelled in Lean (bookkeeping only); angles are covered by "
-    "the end-to-end oracle, zenith angles and azimuths are not generated (azimuth input is rejected by the parser)",
+    "E_3 / R_3 primitives (e3.cpp), Point::diff_N.., X_dh, model_height, Parameter::index are hand-written Lean "
+    "(Gama/Model/{Neu,G3Lin}.lean), pinned by a normalised-text comparison in the translator and by the `lin` stream",
+    "angle coefficients: generated and compared bit for bit, guards proved, right-hand side proved; that they are the "
+    "derivative of the angle between the vertical planes is checked numerically only (`lin` derivative oracle); "
+    "zenith: derivative proved for the station's coefficients in its own frame, the rotation to the target numerically; "
+    "azimuth coefficients are not derivatives (cos/sin of the observed value, not divided by the distance) - azimuth "
+    "input is refused by the parser (G2), so this code is unreachable from gama-g3",
     "Ellipsoid::xyz2blh (B, L, H of a point) is an input of the frame model (C18's subject)",
     "operator<< / istringstream>> of numbers: the round-trip theorem assumes rd (fmt x) = x; gama-g3 writes the dump "
     "with precision(16), which is not bit-faithful for every double (observed relative deviation <= 2e-16)",
@@ -34,6 +46,19 @@ ASSUMPTIONS = ["approximate coordinates within tol-abs (1 m) of the generating o
                "heights / angles below 1e-8 m (displacements <= 2 mm for those families)"]
 
 TOL_XYZ = 1e-5          # the property's tolerance on adjusted coordinates [m]
+
+
+def _tr(name):
+    spec = importlib.util.spec_from_file_location(name, str(VERIF / "tools" / "gen" / (name + ".py")))
+    m = importlib.util.module_from_spec(spec)
+    sys.modules.setdefault(name, m)
+    spec.loader.exec_module(m)
+    return m
+
+
+def translate(ctx):
+    _tr("c19_linearization").translate(ctx.repo, ctx.lean)
+    _tr("c19_g3parser").translate(ctx.repo, ctx.lean)
 
 
 def _gen():
@@ -235,11 +260,352 @@ def oracle(ctx, corr, gen, g3, exe, net, tmp, tag, n_orders):
     return ok
 
 
+# ------------------------------------------------------------------ stream `lin`: one Model::linearization(T*)
+
+LIN_TYPES = ["vector", "xyz", "distance", "height", "hdiff", "zenith", "azimuth", "angle"]
+LIN_ROLES = {"vector": ["frm", "to"], "distance": ["frm", "to"], "hdiff": ["frm", "to"], "zenith": ["frm", "to"],
+             "azimuth": ["frm", "to"], "xyz": ["pt"], "height": ["pt"], "angle": ["frm", "left", "right"]}
+# the unknowns an observation type can have a coefficient for (lean: Gama.Props.C19 `pattern`)
+LIN_PATTERN = {"vector": {"frm": "NEU", "to": "NEU"}, "distance": {"frm": "NEU", "to": "NEU"},
+               "zenith": {"frm": "NEU", "to": "NEU"}, "azimuth": {"frm": "NE", "to": "NEU"},
+               "hdiff": {"frm": "U", "to": "U"}, "xyz": {"pt": "NEU"}, "height": {"pt": "U"},
+               "angle": {"frm": "NEU", "left": "NEU", "right": "NEU"}}
+WGS_A, WGS_F = 6378137.0, 1 / 298.257223563
+
+
+def blh2xyz(b, l, h):
+    e2 = WGS_F * (2 - WGS_F)
+    n = WGS_A / math.sqrt(1 - e2 * math.sin(b) ** 2)
+    return ((n + h) * math.cos(b) * math.cos(l), (n + h) * math.cos(b) * math.sin(l), (n * (1 - e2) + h) * math.sin(b))
+
+
+def gen_lin_case(rng, force_type=None, clean=False):
+    """one direct linearisation: points around a centre anywhere on the ellipsoid, sights up to 60 deg off the
+    horizontal, n/e and u states drawn independently per point (so: fixed n,e + free u targets, constrained
+    components, unused points), 15 % with different N and E states (only reachable by a direct call)"""
+    ty = force_type or rng.choice(LIN_TYPES)
+    kind = rng.choice(["generic", "generic", "pole", "equator", "antimeridian"])
+    b0 = {"generic": rng.uniform(-1.4, 1.4), "pole": rng.choice([-1, 1]) * (math.pi / 2 - rng.choice([1e-6, 1e-3, 5e-3])),
+          "equator": rng.choice([0.0, 1e-9]), "antimeridian": rng.uniform(-1.2, 1.2)}[kind]
+    l0 = math.pi - 1e-7 if kind == "antimeridian" else rng.uniform(-math.pi, math.pi)
+    h0 = rng.uniform(-50, 3000)
+    clean = clean or rng.random() < 0.5
+    az0 = rng.uniform(0, 2 * math.pi)
+    pts, nxt = {}, 1
+    for k, role in enumerate(LIN_ROLES[ty]):
+        if role in ("frm", "pt"):
+            dn = de = du = 0.0
+        else:
+            d = rng.choice([rng.uniform(20, 200), rng.uniform(200, 5000)])
+            a = az0 if role != "right" else az0 + rng.uniform(0.2, 2.9)      # right is clockwise of left, < 200 gon
+            elev = rng.choice([rng.uniform(-0.05, 0.05), rng.uniform(-1.0, 1.0)])
+            dn, de, du = d * math.cos(a), d * math.sin(a), d * math.tan(elev)
+        b = b0 + dn / 6.37e6
+        l = l0 + de / (6.37e6 * max(math.cos(b0), 1e-3))
+        h = h0 + du
+        sh_ = rng.choice([1, 2, 2, 3]) if rng.random() < 0.93 else 0
+        su = rng.choice([1, 2, 2, 3]) if rng.random() < 0.93 else 0
+        sn = se = sh_
+        if not clean and rng.random() < 0.15:
+            se = rng.choice([0, 1, 2, 3])
+        ind = []
+        for st_ in (sn, se, su):
+            if st_ in (2, 3):
+                ind.append(nxt)
+                nxt += 1
+            else:
+                ind.append(rng.choice([0, 0, 7 + nxt]))         # index() must hide it
+        cor = [0.0, 0.0, 0.0] if clean or rng.random() < 0.6 else [rng.uniform(-0.05, 0.05) for _ in range(3)]
+        dbl = [0.0, 0.0] if clean or rng.random() < 0.6 else [rng.uniform(-5e-5, 5e-5) for _ in range(2)]
+        mode = rng.choice(["blh", "xyz"])
+        abc = (b, l, h) if mode == "blh" else blh2xyz(b, l, h)
+        pts[role] = {"mode": mode, "abc": list(abc), "geoid": rng.choice([0.0, rng.uniform(-40, 40)]), "dbl": dbl,
+                     "st": [sn, se, su], "ind": ind, "cor": cor, "blh": [b, l, h]}
+    dh = [0.0] * 4 if clean or rng.random() < 0.4 else [rng.choice([0.0, rng.uniform(0, 2.5)]) for _ in range(4)]
+    xyz = {r: blh2xyz(*pts[r]["blh"]) for r in pts}
+    noise = rng.choice([0.0, 1e-4, 2e-3, 0.8, 3.0])
+    if ty in ("vector",):
+        v = [xyz["to"][i] - xyz["frm"][i] + rng.uniform(-noise, noise) for i in range(3)]
+    elif ty == "xyz":
+        v = [xyz["pt"][i] + rng.uniform(-noise, noise) for i in range(3)]
+    elif ty == "distance":
+        v = [math.dist(xyz["to"], xyz["frm"]) + rng.uniform(-noise, noise), 0.0, 0.0]
+    elif ty == "height":
+        v = [pts["pt"]["blh"][2] - pts["pt"]["geoid"] + rng.uniform(-noise, noise), 0.0, 0.0]
+    elif ty == "hdiff":
+        v = [pts["to"]["blh"][2] - pts["frm"]["blh"][2] + rng.uniform(-noise, noise), 0.0, 0.0]
+    else:
+        v = [rng.uniform(0.1, 3.0), 0.0, 0.0]
+    tol = rng.choice([1000.0, 1000.0, 0.5, 1e-3])
+    return {"type": ty, "pts": pts, "v": v, "dh": dh, "tol": tol, "clean": clean, "center": kind}
+
+
+def lin_lines(c, override=None, shift=None):
+    """protocol lines of a case; override = {role: (x, y, z)} replaces a point by geocentric coordinates,
+    shift = {role: (dx, dy, dz)} sets the corrections of X, Y, Z (frame and vertical stay)"""
+    out = []
+    for role in LIN_ROLES[c["type"]]:
+        p = dict(c["pts"][role])
+        mode, abc = p["mode"], p["abc"]
+        if override and role in override:
+            mode, abc = "xyz", override[role]
+        if shift and role in shift:
+            p["cor"] = shift[role]
+        out.append("gpt %s %s %s %s %s %s %s %s %d %d %d %d %d %d %s %s %s 0" % (
+            role, mode, hx(abc[0]), hx(abc[1]), hx(abc[2]), hx(p["geoid"]), hx(p["dbl"][0]), hx(p["dbl"][1]),
+            p["st"][0], p["st"][1], p["st"][2], p["ind"][0], p["ind"][1], p["ind"][2],
+            hx(p["cor"][0]), hx(p["cor"][1]), hx(p["cor"][2])))
+    d = c["dh"]
+    out.append("lin %s %s %s %s %s %s %s %s %s" % (c["type"], hx(c["v"][0]), hx(c["v"][1]), hx(c["v"][2]),
+                                                  hx(d[0]), hx(d[1]), hx(d[2]), hx(d[3]), hx(c["tol"])))
+    return out
+
+
+def hx(x):
+    return float2hex(float(x))
+
+
+def parse_lin_out(lines):
+    """-> (gpt: role -> tokens, rows: [[(index, coef)]], rhs: [float])"""
+    gpt, rows, rhs = {}, [], []
+    for l in lines:
+        t = l.split()
+        if t[:2] == ["data", "gpt"]:
+            gpt[t[2]] = t[3:]
+        elif t[:2] == ["res", "row"]:
+            rows.append([(int(t[4 + 2 * k]), hex2float(t[5 + 2 * k])) for k in range(int(t[3]))])
+        elif t[:2] == ["res", "rhs"]:
+            rhs = [hex2float(x) for x in t[3:]]
+    return gpt, rows, rhs
+
+
+def lin_expected_indices(c):
+    """the property `only free`: a coefficient for exactly the adjusted (free / constrained) unknowns of the
+    points of the observation that the observation depends on; None when N and E have different states"""
+    exp = []
+    for role, comps in LIN_PATTERN[c["type"]].items():
+        p = c["pts"][role]
+        if p["st"][0] != p["st"][1]:
+            return None
+        for k, cn in enumerate("NEU"):
+            if cn in comps and p["st"][k] in (2, 3):
+                exp.append(p["ind"][k])
+    return sorted(exp)
+
+
+def lin_stream(ctx, corr, exe):
+    cases = [c["case"] for c in load_corpus(ctx, "lin")]
+    cases += [gen_lin_case(ctx.rng) for _ in range(ctx.size(400, 6000))]
+    for ty in LIN_TYPES:                                   # every type, every run: clean cases for the oracles
+        cases += [gen_lin_case(ctx.rng, ty, clean=True) for _ in range(ctx.size(6, 60))]
+    lin_oracles(ctx, corr, exe, cases)
+
+
+def lin_oracles(ctx, corr, exe, cases):
+    impl, crashes = run_cases(exe, [lin_lines(c) for c in cases])
+    dcases = [[l[5:] for l in out if l.startswith("data gpt ")] + [l[5:] for l in out if l.startswith("data lin ")]
+              for out in impl]
+    model, _ = run_cases(ctx.driver("drv_g3"), dcases)
+    stat = {}
+    deriv_jobs = []
+    for i, c in enumerate(cases):
+        key = (c["type"], tuple(tuple(c["pts"][r]["st"]) for r in c["pts"]))
+        corr.case(key=sha(" ".join(lin_lines(c))), sample={"stream": "lin", "type": c["type"], "impl": impl[i][-3:]} if i < 2 else None)
+        corr.count("lin type " + c["type"])
+        if any(c["pts"][r]["st"][0] in (0, 1) and c["pts"][r]["st"][2] in (2, 3) for r in c["pts"]):
+            corr.count("lin cases with a fixed n,e + adjusted u point")
+        if i in crashes:
+            corr.fail("Model::linearization crashed (sanitizer)", {"stream": "lin", "case": c}, "Model::linearization", crashes[i][1])
+            continue
+        ires = [l for l in impl[i] if l.startswith("res ")]
+        why = cmp_lines(ires, model[i], stat) if ires else "no output: " + " | ".join(impl[i][-2:])
+        if why:
+            corr.disagree("g3-lin", {"case": c, "lines": lin_lines(c)}, ires[:8], model[i][:8], why)
+        # ---- oracle on the implementation: coefficients exactly for the adjusted unknowns
+        gpt, rows, rhs = parse_lin_out(impl[i])
+        exp = lin_expected_indices(c)
+        if exp is not None and rows:
+            for k, r in enumerate(rows):
+                got = sorted(ix for ix, _ in r)
+                if got != exp:
+                    corr.fail(f"{c['type']} row {k + 1}: coefficients for unknowns {got}, but the adjusted unknowns of its "
+                              f"points are {exp}", {"stream": "lin", "case": c}, f"Model::linearization({c['type']})")
+                    break
+        if c["clean"] and c["type"] != "azimuth" and rows and all(len(g) >= 21 for g in gpt.values()):
+            deriv_jobs.append((i, gpt, rows, rhs))
+    for k, v in stat.items():
+        corr.stats["lin_" + k] = v
+    # ---- oracle on the implementation: every coefficient is the derivative of the right-hand side
+    #      (rhs = (obs - f(points)) * scale, coefficient = df / d(n|e|u) per millimetre)
+    H = 5e-3
+    jobs, meta = [], []
+    for i, gpt, rows, rhs in deriv_jobs[:ctx.size(60, 600)]:
+        c = cases[i]
+        for role in LIN_ROLES[c["type"]]:
+            p = c["pts"][role]
+            g = [hex2float(x) for x in gpt[role][:21]]
+            x0, R = g[3:6], g[12:21]
+            for k, cn in enumerate("NEU"):
+                if p["st"][k] not in (2, 3) or cn not in LIN_PATTERN[c["type"]][role]:
+                    continue
+                col = (R[k], R[3 + k], R[6 + k])
+                for sgn in (+1, -1):
+                    if c["type"] in ("height", "hdiff"):      # H() follows the coordinates only through xyz2blh
+                        jobs.append(lin_lines(c, override={role: tuple(x0[j] + sgn * H * col[j] for j in range(3))}))
+                    else:                                      # move the point, keep its frame and vertical
+                        jobs.append(lin_lines(c, shift={role: tuple(sgn * H * col[j] for j in range(3))}))
+                meta.append((i, role, k))
+    out, cr = run_cases(exe, jobs)
+    for j, (i, role, k) in enumerate(meta):
+        c = cases[i]
+        _, rows, rhs0 = parse_lin_out(impl[i])
+        _, _, rp = parse_lin_out(out[2 * j])
+        _, _, rm = parse_lin_out(out[2 * j + 1])
+        if len(rp) != len(rhs0) or len(rm) != len(rhs0):
+            continue
+        ind = c["pts"][role]["ind"][k]
+        # natural size of a coefficient of this type: 1 (linear types), rho''/1000/distance (angular types, cc per mm)
+        xs = [blh2xyz(*q["blh"]) for q in c["pts"].values()]
+        dmax = max([math.dist(a, b) for a in xs for b in xs] + [1.0])
+        floor = 636.62 / dmax if c["type"] in ("zenith", "angle") else 1.0
+        for r in range(len(rhs0)):
+            coef = sum(v for ix, v in rows[r] if ix == ind)
+            num = -(rp[r] - rm[r]) / (2 * H) / 1000.0
+            scale = max([abs(v) for _, v in rows[r]] + [abs(num), floor])     # largest coefficient of the row
+            corr.maxstat("lin_max_dev_coefficient_vs_numeric_derivative_rel_to_row", abs(coef - num) / scale)
+            if abs(coef - num) > 2e-5 * scale:
+                corr.fail(f"{c['type']}: coefficient of {role}.{'NEU'[k]} is {coef:.9g} but the right-hand side changes by "
+                          f"{num:.9g} per mm when the point moves along that axis (row {r + 1})",
+                          {"stream": "lin", "case": c, "role": role, "comp": "NEU"[k]}, f"Model::linearization({c['type']})")
+                break
+        corr.count("lin_derivative_checks")
+
+
+# ------------------------------------------------------------------ stream `parse`: records through DataParser
+
+PARSE_KINDS = ["distance", "zenith", "vector", "xyz", "hdiff", "height", "angle"]     # <azimuth> is always refused (G2)
+PARSE_OPTS = {"distance": ["from-dh", "to-dh"], "zenith": ["from-dh", "to-dh"], "vector": ["from-dh", "to-dh"],
+              "xyz": [], "hdiff": [], "height": [], "angle": ["from-dh", "left-dh", "right-dh"]}
+PARSE_DIM = {"vector": 3, "xyz": 3}
+
+
+def gen_parse_case(rng):
+    recs = []
+    for _ in range(rng.randint(2, 8)):
+        k = rng.choice(PARSE_KINDS)
+        opts = []
+        for tag in PARSE_OPTS[k]:
+            if rng.random() < 0.5:
+                opts.append((tag, round(rng.uniform(0.1, 3.0), 3)))
+        rng.shuffle(opts)
+        if opts and rng.random() < 0.15:
+            opts.append((opts[0][0], round(rng.uniform(0.1, 3.0), 3)))       # the same child twice: last one wins
+        recs.append({"kind": k, "opts": opts, "val": round(rng.uniform(10, 150), 3)})
+    if rng.random() < 0.12:                                                    # a child the record kind does not know
+        r = rng.choice(recs)
+        r["opts"].append((rng.choice([t for t in ("from-dh", "to-dh", "left-dh", "right-dh") if t not in PARSE_OPTS[r["kind"]]]),
+                          1.5))
+        r["bad"] = True
+    return recs
+
+
+def parse_xml(recs):
+    body = []
+    for i, r in enumerate(recs):
+        k, v = r["kind"], r["val"]
+        if k in ("distance", "zenith", "hdiff"):
+            main = "<from>A%d</from> <to>B%d</to> <val>%s</val>" % (i, i, v)
+        elif k == "vector":
+            main = "<from>A%d</from> <to>B%d</to> <dx>%s</dx> <dy>%s</dy> <dz>%s</dz>" % (i, i, v, v + 1, v + 2)
+        elif k == "xyz":
+            main = "<id>A%d</id> <x>%s</x> <y>%s</y> <z>%s</z>" % (i, v, v + 1, v + 2)
+        elif k == "height":
+            main = "<id>A%d</id> <val>%s</val>" % (i, v)
+        else:
+            main = "<from>A%d</from> <left>B%d</left> <right>C%d</right> <val>%s</val>" % (i, i, i, v)
+        opts = " ".join("<%s>%s</%s>" % (t, x, t) for t, x in r["opts"])
+        body.append("<%s> %s %s </%s>" % (k, main, opts, k))
+    dim = sum(PARSE_DIM.get(r["kind"], 1) for r in recs)
+    return ('<?xml version="1.0" ?> <gnu-gama-data xmlns="http://www.gnu.org/software/gama/gnu-gama-data"> <g3-model> '
+            "<obs> " + " ".join(body) + " <cov-mat> <dim>%d</dim> <band>0</band> %s </cov-mat> </obs> </g3-model> </gnu-gama-data>"
+            % (dim, " ".join("<flt>1</flt>" for _ in range(dim))))
+
+
+def impl_built(lines):
+    """the dh members of the observations the real parser built, in the model driver's format"""
+    if any(l.startswith("throw") for l in lines):
+        return ["throw"]
+    out = []
+    for l in lines:
+        t = l.split()
+        if t[:2] != ["data", "ob"]:
+            continue
+        k = t[3]
+        n = {"distance": 2, "zenith": 2, "vector": 2, "hdiff": 2, "azimuth": 2, "angle": 3}.get(k, 0)
+        out.append("pb " + " ".join([k] + (t[-n:] if n else [])))
+    return out
+
+
+def parse_stream(ctx, corr, exe):
+    cases = [gen_parse_case(ctx.rng) for _ in range(ctx.size(150, 2000))]
+    perms = []
+    for recs in cases:
+        order = list(range(len(recs)))
+        ctx.rng.shuffle(order)
+        perms.append(order)
+    parse_oracles(ctx, corr, exe, cases, perms)
+
+
+def parse_oracles(ctx, corr, exe, cases, perms):
+    impl, crashes = run_cases(exe, [["parse " + parse_xml(r)] for r in cases])
+    impl2, crashes2 = run_cases(exe, [["parse " + parse_xml([r[i] for i in o])] for r, o in zip(cases, perms)])
+    model, _ = run_cases(ctx.driver("drv_g3"),
+                         [["prec %s %s" % (r["kind"], " ".join("%s %s" % (t, hx(x)) for t, x in r["opts"])) for r in recs] + ["prun"]
+                          for recs in cases])
+    stat = {}
+    for i, recs in enumerate(cases):
+        corr.case(key=sha(parse_xml(recs)) if any(r["opts"] for r in recs) else None,
+                  sample={"stream": "parse", "impl": impl[i][:3]} if i < 1 else None)
+        corr.count("parse records", len(recs))
+        if i in crashes or i in crashes2:
+            corr.fail("DataParser crashed (sanitizer) on g3 records", {"stream": "parse", "records": recs}, "DataParser",
+                      (crashes.get(i) or crashes2.get(i))[1])
+            continue
+        a = impl_built(impl[i])
+        m = ["throw"] if any(l.startswith("throw") for l in model[i]) else model[i]
+        if a == ["throw"]:
+            corr.count("parse documents refused")
+        why = cmp_lines(a, m, stat)
+        if why:
+            corr.disagree("g3-parse", {"records": recs, "xml": parse_xml(recs)}, a[:10], m[:10], why)
+        # ---- oracle on the implementation: each observation depends on its own record only, so the permuted
+        #      document gives the permuted observations
+        b = impl_built(impl2[i])
+        if a != ["throw"] and b != ["throw"]:
+            exp = [a[k] for k in perms[i]]
+            if exp != b:
+                k = next(j for j in range(len(exp)) if j >= len(b) or exp[j] != b[j])
+                corr.fail(f"g3 parser: record {recs[perms[i][k]]['kind']} is built as `{b[k] if k < len(b) else None}` after "
+                          f"reordering the records but as `{exp[k]}` in the original order (a value of another record leaks in)",
+                          {"stream": "parse", "records": recs, "order": perms[i], "xml": parse_xml(recs)}, "DataParser::g3_obs_*")
+        elif (a == ["throw"]) != (b == ["throw"]):
+            corr.fail("g3 parser: a document is refused in one record order and accepted in another",
+                      {"stream": "parse", "records": recs, "order": perms[i]}, "DataParser")
+        # ---- and a record without children gets zero heights
+        for r, l in zip(recs, a if a != ["throw"] else []):
+            if not r["opts"] and any(hex2float(x) != 0.0 for x in l.split()[2:]):
+                corr.fail(f"g3 parser: {r['kind']} record without -dh children is built with non-zero heights: {l}",
+                          {"stream": "parse", "records": recs, "xml": parse_xml(recs)}, "DataParser::g3_obs_*")
+                break
+
+
 # ------------------------------------------------------------------ check
 
-def load_corpus(ctx):
+def load_corpus(ctx, stream=None):
+    """corpus files without a "stream" entry are networks (xml / end-to-end streams)"""
     d = ctx.verif / "corpus" / ID
-    return [json.loads(f.read_text()) for f in sorted(d.glob("*.json"))] if d.exists() else []
+    all_ = [json.loads(f.read_text()) for f in sorted(d.glob("*.json"))] if d.exists() else []
+    return [c for c in all_ if c.get("stream") == stream]
 
 
 def gross_error(rng, net):
@@ -322,6 +688,10 @@ def correspond(ctx, corr):
     for k, v in stat.items():
         corr.stats[k] = v
 
+    # ---- single linearisations and parser records
+    lin_stream(ctx, corr, exe)
+    parse_stream(ctx, corr, exe)
+
     # ---- end-to-end oracle
     with tempfile.TemporaryDirectory(prefix="c19-") as td:
         tmp = Path(td)
@@ -360,7 +730,13 @@ def search(ctx, broken, corr):
 
 
 def classify(ctx, failure):
-    net = (failure.replay or {}).get("net") or {}
+    rp = failure.replay or {}
+    if rp.get("stream") == "lin" and (rp.get("case") or {}).get("type") == "zenith" and rp.get("comp") in ("N", "E") \
+            and failure.what.startswith("zenith: coefficient of"):
+        # Model::linearization(ZenithAngle*): the n, e coefficients lack the factor local.e3 (the u component of the
+        # line of sight); the u coefficients are right
+        return "C19-zenith-horizontal-coef"
+    net = rp.get("net") or {}
     pts = {p["id"]: p for p in net.get("points", [])}
     has = any(o["t"] == "angle" and any(pts[o[k]]["h"] != "fixed" and pts[o[k]]["u"] == "fixed" for k in ("from", "left", "right"))
               for c in net.get("clusters", []) for o in c["obs"])
@@ -383,6 +759,12 @@ def classify(ctx, failure):
 
 
 def explained_by_known(ctx, broken_item, matched_ids):
+    # the derivative theorem of the zenith-angle coefficients is proved for the repaired formula
+    # (notes/proposed/C19-zenith-horizontal-coef.diff); on a tree without the repair its proof fails for the reason
+    # the registered finding describes
+    if "C19-zenith-horizontal-coef" in matched_ids and getattr(broken_item, "kind", "") == "proof" \
+            and "zenith" in (getattr(broken_item, "name", "") or "").lower():
+        return True
     return False
 
 
@@ -391,6 +773,18 @@ def replay(ctx, payload):
     f = payload.get("failure") or {}
     inp = f.get("input") or {}
     print(json.dumps({k: f.get(k) for k in ("what", "site")}, indent=1))
+    if inp.get("stream") in ("lin", "parse"):
+        exe = ctx.build_cpp("c19_g3", harness_sources(ctx), libs=["-lexpat"])
+        corr = Corr()
+        if inp["stream"] == "lin":
+            lin_oracles(ctx, corr, exe, [inp["case"]])
+        else:
+            parse_oracles(ctx, corr, exe, [inp["records"]], [inp.get("order") or list(range(len(inp["records"])))])
+        for fl in corr.failures:
+            print("STILL FAILS:", fl.what)
+        if not corr.failures:
+            print("no longer fails on this tree")
+        return 1 if corr.failures else 0
     if "net" not in inp:
         print(json.dumps(payload.get("no_longer_checks"), indent=1)[:4000])
         return 0
@@ -415,15 +809,21 @@ def replay(ctx, payload):
     return 1 if corr.failures else 0
 
 
-LEVEL_TEXT = ("Lean 4 theorems over the reals about executable models of what is specific to gama-g3: the north-east-up "
-              "frame of g3::Point (orthogonal, det -1), the rotated coefficient triples of vector / xyz / distance / "
-              "height rows (exact linear map resp. derivative), one-step exactness for consistent vectors, the "
-              "unknown-index bookkeeping (order independence up to a renumbering, redundancy identity) and the "
-              "adj-input-data writer/reader round trip; models tied to the C++ by differential correspondence "
-              "(frames, sparse rows, right-hand sides, cofactor blocks, indices, SAX events) and an end-to-end oracle "
-              "on gama-g3 (4 algorithms, record orders, statistics, dump re-adjusted by class Adj).")
-LEVEL_NOTE = ("The least-squares solvers behind class Adj are not part of this check (C01-C04). The g3 parser, "
-              "Model::update_init and the result writer are exercised end-to-end only. Angle / zenith / azimuth "
-              "coefficients are not modelled. Number formatting is assumed to round-trip (rd (fmt x) = x). "
-              "Proofs are over exact reals, not IEEE doubles.")
+LEVEL_TEXT = ("Lean 4 theorems about executable models of what is specific to gama-g3: the linearisation of all eight g3 "
+              "observation types regenerated from g3_model_linearization.cpp by a translator (guards, coefficient "
+              "expressions, right-hand sides): a coefficient is emitted for exactly the adjusted unknowns of the "
+              "observation's points, right-hand sides vanish at the generating coordinates for every type, the vector / "
+              "xyz / distance / height rows are exact linear maps resp. derivatives, the station's zenith coefficients "
+              "are derivatives, one-step exactness for consistent vectors; the north-east-up frame (orthogonal, det -1); "
+              "the unknown-index bookkeeping (order independence up to a renumbering, redundancy identity); the "
+              "pending-attribute discipline of the g3 data parser read from the source (every observation depends on "
+              "its own record only, parsing is independent of record order); the adj-input-data writer/reader round "
+              "trip. Models tied to the C++ by translators and differential correspondence (single linearisations, "
+              "parser records, frames, sparse rows, right-hand sides, cofactor blocks, indices, SAX events) and an "
+              "end-to-end oracle on gama-g3 (4 algorithms, record orders, statistics, dump re-adjusted by class Adj).")
+LEVEL_NOTE = ("The least-squares solvers behind class Adj are not part of this check (C01-C04). The SAX state table of "
+              "the g3 parser, Model::update_init and the result writer are exercised end-to-end only. Angle "
+              "coefficients are derivatives only numerically; azimuth coefficients are not derivatives (unreachable "
+              "code). Number formatting is assumed to round-trip (rd (fmt x) = x). Proofs are over exact reals, not "
+              "IEEE doubles.")
 TECHNIQUE = "Lean 4 proof (Mathlib: matrices, derivatives, list permutations) + model/implementation correspondence + end-to-end oracle"
